@@ -156,9 +156,11 @@ CHECKS = {
         "string; HTTP part: C12_api_no_crash for the model of the admin API (every request gets a response; the pre-fix nil dereference is kept as a proved "
         "counterexample about the pre-fix definition); signalling part: C12_run_no_crash for the model of the websocket message handler and action loop (every message "
         "and every queued action of every reachable world yields effects, never a crash; the pre-fix crashes P10/P12/P18/offer-without-group are kept as proved counterexamples "
-        "about the pre-fix definitions); WHIP handlers: C12_whip_no_crash; the real functions/handlers are run under recover() on type-directed and malformed inputs on every check and "
+        "about the pre-fix definitions); WHIP handlers: C12_whip_no_crash; trickle-ICE fragments: C12_sdp_unmarshal_no_panic for the model of sdpfrag.Unmarshal in which every Go slice "
+        "expression keeps its bounds check as an explicit panic outcome (every byte string ends in ok or err; the only refusal is an a=mid line outside a media section; scanner lines < 64 KiB; "
+        "candidates never outnumber input lines), the whole parsed structure compared with the real parser on every check; the real functions/handlers are run under recover() on type-directed and malformed inputs on every check and "
         "any panic is reported with the input",
-   note=TB + "JSON decoding, websocket framing, pion's SDP/RTCP parsers are exercised only "
+   note=TB + "JSON decoding, websocket framing, pion's SDP/RTCP parsers and sdpfrag.PatchSDP/FromSDP (which work on pion's SDP types) are exercised only "
         "by the harness (exploration, not proof).",
    technique="Lean 4 totality proofs (no panic, length preserved) + differential/fuzz run under recover()",
    ref="DESIGN.md section 5 C12"),
